@@ -71,6 +71,12 @@ class ThermostatParameter(Parameter):
         self.offset = offset
         super().__init__(device, description, values, index)
 
+    def __copy__(self) -> ThermostatParameter:
+        """Create a copy of parameter."""
+        parameter = super().__copy__()
+        parameter.offset = self.offset
+        return parameter
+
     async def create_request(self) -> Request:
         """Create a request to change the parameter."""
         return await Request.create(
